@@ -41,6 +41,7 @@ func LeavesFull() []*Node {
 		Lf(Leaf{Kind: LRange, Field: "f", Lo: I("1"), Hi: Star, Incl: false}),
 		Lf(Leaf{Kind: LList, Field: "f", List: []Value{W("x"), W("y")}}),
 		Lf(Leaf{Kind: LList, Field: "f", List: []Value{I("1"), I("2"), I("3")}}),
+		Lf(Leaf{Kind: LList, Field: "f", List: []Value{W("x"), W("y"), W("x")}}),
 		// a sub-query as the field's value
 		Lf(Leaf{Kind: LGroup, Field: "f", Sub: Bin(OAnd, Lf(Leaf{Kind: LTerm, Val: W("x")}), Lf(Leaf{Kind: LTerm, Val: W("y")}))}),
 		Lf(Leaf{Kind: LGroup, Field: "f", Sub: Un(ONot, Lf(Leaf{Kind: LTerm, Val: W("x")}))}),
